@@ -326,6 +326,20 @@ fn type_order_family(acc: &mut Stats) {
         ("payload field through a variant parameter", "w :: fn q: E do\n        case q do\n            V p -> print(p.c.nope) end\n            else do end\n        end\n    end", false),
     ];
     type_order_group(acc, &decls, &uses);
+    // declared types mentioned only as type arguments of other declared types (one and two levels down, in a field, a
+    // payload and a tuple), each use with one definite mismatch against the argument or the matching well-typed value
+    let decls = ["Bx :: blob(*T) { v: *T }", "Pr :: blob(*T) { a: *T, b: *T }", "W :: blob { inner: Bx(Pr(int)) }", "K :: enum\n    Hold Bx(Pr(int)),\n    Mix (int, Bx(Pr(str))),\n    Zip,\nend"];
+    let uses: [(&str, &str, bool); 8] = [
+        ("argument of an argument given the wrong type", "w :: W { inner: Bx { v: Pr { a: \"x\", b: \"y\" } } }\n    print(w.inner.v.a + w.inner.v.b)", false),
+        ("argument of an argument given the right type", "w :: W { inner: Bx { v: Pr { a: 1, b: 2 } } }\n    print(w.inner.v.a + w.inner.v.b)", true),
+        ("argument given another declared type", "w :: W { inner: Bx { v: Bx { v: 1 } } }", false),
+        ("absent field of the argument of an argument", "w :: fn q: W do\n        print(q.inner.v.nope)\n    end", false),
+        ("payload whose type argument is given the wrong type", "k :: K.Hold Bx { v: Pr { a: 1, b: \"y\" } }", false),
+        ("payload whose type argument is given the right type", "k :: K.Hold Bx { v: Pr { a: 1, b: 2 } }\n    print(k)", true),
+        ("tuple payload whose type argument is given the wrong type", "k :: K.Mix (1, Bx { v: Pr { a: 1, b: 2 } })", false),
+        ("tuple payload whose type argument is given the right type", "k :: K.Mix (1, Bx { v: Pr { a: \"x\", b: \"y\" } })\n    print(k)", true),
+    ];
+    type_order_group(acc, &decls, &uses);
 }
 
 /// generic declarations used at two instantiations, next to functions whose signatures are the only thing that
